@@ -794,15 +794,23 @@ func (r *aRun) oracleC07(v *aView) {
 					continue
 				}
 				st := stampOf(sr)
-				out.Obligations++
-				if !v.acked[st] && !v.onDisk[st] {
-					r.note("C07", "sentinel-lost", "sentinel-lost", "well-formed record %s was read by the agent next to hostile input but never delivered nor queued", st)
-					continue
-				}
 				head := strings.TrimSuffix(sr.line, "\n")
 				rr, ok := expect[head]
 				if !ok {
 					continue // the bytes before it did not end with a newline: it is not a record of its own in this stream
+				}
+				out.Obligations++
+				// one documented, test-pinned behaviour gets its own identity: when a line fills the line buffer, the overflow
+				// handling emits whatever unfinished record sits at the end of the buffer, so a record that follows an oversize
+				// line in the same buffer fill is cut
+				sig := "sentinel-lost"
+				sigC := "sentinel-corrupted"
+				if longLineBefore(stream, sr.start, defs.ListenerLineBufferSize-defs.InputLogMaxRecordBytes-len(sr.line)) {
+					sig, sigC = "after-line-buffer-overflow", "after-line-buffer-overflow"
+				}
+				if !v.acked[st] && !v.onDisk[st] {
+					r.note("C07", "sentinel-lost", sig, "well-formed record %s was read by the agent next to hostile input but never delivered nor queued", st)
+					continue
 				}
 				for _, d := range v.deliveries[st] {
 					matched := false
@@ -821,14 +829,14 @@ func (r *aRun) oracleC07(v *aView) {
 						}
 					}
 					if !matched {
-						r.note("C07", "sentinel-corrupted", "sentinel-corrupted", "well-formed record %s was delivered altered next to hostile input: %s", st, sameEvent(d.entry, v.ref.eval(head).entry, true))
+						r.note("C07", "sentinel-corrupted", sigC, "well-formed record %s was delivered altered next to hostile input: %s", st, sameEvent(d.entry, v.ref.eval(head).entry, true))
 					}
 				}
 			}
 		}
 	}
 	if r.finalDeadlineHit {
-		r.note("C07", "wedged", "wedged", "well-formed records were not delivered within the bound after the hostile phase: the agent is wedged")
+		r.note("C07", "wedged", "wedged", "the records of a new, clean connection were not delivered within the bound after the hostile phase: the agent is wedged")
 	}
 	// accounting: input passed + dropped == framed messages handed to the parser is decided in C19's profile; here only "rejected and counted"
 	if len(r.stops) > 0 {
@@ -1225,4 +1233,21 @@ func (r *aRun) oracleC19(v *aView) {
 			}
 		}
 	}
+}
+
+// longLineBefore reports whether the stream has a line of at least n bytes that ends within one line buffer before off
+func longLineBefore(stream string, off int, n int) bool {
+	from := max(0, off-2*defs.ListenerLineBufferSize)
+	run := 0
+	for i := from; i < off && i < len(stream); i++ {
+		if stream[i] == '\n' {
+			run = 0
+			continue
+		}
+		run++
+		if run >= n {
+			return true
+		}
+	}
+	return false
 }
